@@ -864,6 +864,16 @@ func (c *Ctx) checkReaderErrors() {
 			if !ok || core.ErrResultIndex(call.Call.Signature()) < 0 {
 				continue
 			}
+			// in-memory assembly of a value the function itself chose (NodeBuilder / NodeAssembler / MapAssembler /
+			// ListAssembler methods) cannot fail on well-typed input and is outside this rule, as in D4
+			if call.Call.IsInvoke() {
+				if nn, ok := types.Unalias(call.Call.Value.Type()).(*types.Named); ok {
+					switch nn.Obj().Name() {
+					case "NodeBuilder", "NodeAssembler", "MapAssembler", "ListAssembler":
+						continue
+					}
+				}
+			}
 			// a callee that cannot fail (a typed-node accessor whose every return carries the nil error) owes nothing
 			if h := call.Call.StaticCallee(); h != nil && len(h.Blocks) > 0 {
 				hi := core.ErrResultIndex(h.Signature)
